@@ -8,7 +8,8 @@ x/metadata/keeper/{scope,session,record}.go on every run).
 call by call: which validation function each endpoint calls, with which required / available
 party lists and which specification's role list, and how the required lists are assembled.
 If an endpoint starts passing other parties or roles, the regenerated list changes and
-`signer_calls_as_modelled` stops checking.
+`signer_calls_as_modelled` stops checking.  `msgServerCalls` is the same for the endpoints of
+x/metadata/keeper/msg_server.go: look-up, copy, list edit, validation call, store write.
 -/
 import Generated.SignerCalls
 
@@ -128,5 +129,66 @@ theorem old_session_parties_are_required :
         ∈ Generated.SignerCalls.calls
     ∧ (⟨"ValidateWriteRecord", "set:reqSigs", ["append(reqSigs, oldSession.GetAllPartyAddresses()...)"]⟩ : SignerCall)
         ∈ Generated.SignerCalls.calls := by decide
+
+/-! ### the message server (x/metadata/keeper/msg_server.go) -/
+
+/-- What `PvModel/Signers.lean` assumes about the message server's endpoints: they look the
+stored entry up by the id in the message, hand it to the `Validate…` function, and store the
+message's entry; the two owner endpoints run `msg.ValidateBasic`, copy the stored scope, edit
+the COPY's owner list (`AddOwners` / `RemoveOwners`), validate with the stored scope as
+`existing` and the copy as `proposed`, and store the copy (`msgAddScopeOwner`,
+`msgDeleteScopeOwner`); the data-access endpoints edit the stored scope AFTER validating it. -/
+def expectedMsgServerCalls : List SignerCall := [
+  ⟨"WriteScope", "ValidateWriteScope", ["msg"]⟩,
+  ⟨"WriteScope", "SetScope", ["msg.Scope"]⟩,
+  ⟨"DeleteScope", "ValidateDeleteScope", ["msg"]⟩,
+  ⟨"DeleteScope", "RemoveScope", ["msg.ScopeId"]⟩,
+  ⟨"AddScopeDataAccess", "GetScope", ["msg.ScopeId"]⟩,
+  ⟨"AddScopeDataAccess", "ValidateAddScopeDataAccess", ["existing", "msg"]⟩,
+  ⟨"AddScopeDataAccess", "existing.AddDataAccess", ["msg.DataAccess"]⟩,
+  ⟨"AddScopeDataAccess", "SetScope", ["existing"]⟩,
+  ⟨"DeleteScopeDataAccess", "GetScope", ["msg.ScopeId"]⟩,
+  ⟨"DeleteScopeDataAccess", "ValidateDeleteScopeDataAccess", ["existing", "msg"]⟩,
+  ⟨"DeleteScopeDataAccess", "existing.RemoveDataAccess", ["msg.DataAccess"]⟩,
+  ⟨"DeleteScopeDataAccess", "SetScope", ["existing"]⟩,
+  ⟨"AddScopeOwner", "msg.ValidateBasic", []⟩,
+  ⟨"AddScopeOwner", "GetScope", ["msg.ScopeId"]⟩,
+  ⟨"AddScopeOwner", "set:proposed", ["existing"]⟩,
+  ⟨"AddScopeOwner", "proposed.AddOwners", ["msg.Owners"]⟩,
+  ⟨"AddScopeOwner", "ValidateUpdateScopeOwners", ["existing", "proposed", "msg"]⟩,
+  ⟨"AddScopeOwner", "SetScope", ["proposed"]⟩,
+  ⟨"DeleteScopeOwner", "msg.ValidateBasic", []⟩,
+  ⟨"DeleteScopeOwner", "GetScope", ["msg.ScopeId"]⟩,
+  ⟨"DeleteScopeOwner", "set:proposed", ["existing"]⟩,
+  ⟨"DeleteScopeOwner", "proposed.RemoveOwners", ["msg.Owners"]⟩,
+  ⟨"DeleteScopeOwner", "ValidateUpdateScopeOwners", ["existing", "proposed", "msg"]⟩,
+  ⟨"DeleteScopeOwner", "SetScope", ["proposed"]⟩,
+  ⟨"WriteSession", "GetSession", ["msg.Session.SessionId"]⟩,
+  ⟨"WriteSession", "set:existing", ["&e"]⟩,
+  ⟨"WriteSession", "ValidateWriteSession", ["existing", "msg"]⟩,
+  ⟨"WriteSession", "SetSession", ["msg.Session"]⟩,
+  ⟨"WriteRecord", "GetRecord", ["recordID"]⟩,
+  ⟨"WriteRecord", "set:existing", ["&e"]⟩,
+  ⟨"WriteRecord", "ValidateWriteRecord", ["existing", "msg"]⟩,
+  ⟨"WriteRecord", "SetRecord", ["msg.Record"]⟩,
+  ⟨"DeleteRecord", "ValidateDeleteRecord", ["msg.RecordId", "msg"]⟩,
+  ⟨"DeleteRecord", "RemoveRecord", ["msg.RecordId"]⟩
+]
+
+/-- The message server's endpoints look up, edit, validate and store as the model assumes. -/
+theorem msg_server_calls_as_modelled : Generated.SignerCalls.msgServerCalls = expectedMsgServerCalls := by
+  decide
+
+/-- Every list edit the message server makes BEFORE it validates is made on `proposed` (the
+copy), never on `existing`; `existing` is edited only after its validation (data access). -/
+theorem msg_server_edits_the_copy_before_validating :
+    (Generated.SignerCalls.msgServerCalls.filter fun c =>
+        c.callee = "proposed.AddOwners" ∨ c.callee = "proposed.RemoveOwners"
+          ∨ c.callee = "existing.AddOwners" ∨ c.callee = "existing.RemoveOwners").map (fun c => (c.fn, c.callee))
+      = [("AddScopeOwner", "proposed.AddOwners"), ("DeleteScopeOwner", "proposed.RemoveOwners")]
+    ∧ (Generated.SignerCalls.msgServerCalls.filter fun c => c.callee = "ValidateUpdateScopeOwners").map
+        (fun c => (c.fn, c.args))
+      = [("AddScopeOwner", ["existing", "proposed", "msg"]), ("DeleteScopeOwner", ["existing", "proposed", "msg"])] := by
+  decide
 
 end PvProofs.C10
